@@ -19,7 +19,7 @@ Print Assumptions C05_inputs_neutral.
    implementation handed over, position by position *)
 Theorem C05_outputs_arrive : forall b1 b2 s L0,
   holders_only_cpp b1 s = true -> sc_ok s = true -> fst (after_call b1 b2 s L0) = out_of s.
-Proof. exact holders_after_success. Qed.
+Proof. intros. now apply holders_after_success_gen. Qed.
 Print Assumptions C05_outputs_arrive.
 
 (* ... each exactly once: when the call has returned every object's count is its starting value
@@ -28,15 +28,15 @@ Theorem C05_counts_after_call : forall b1 b2 s L0 y,
   holders_only_cpp b1 s = true -> no_alias s = true -> sc_ok s = true ->
   snd (after_call b1 b2 s L0) y = L0 y + mult y (sc_ins s) + mult y (out_of s).
 Proof.
-  intros b1 b2 s L0 y H NA Hok. rewrite counts_after_call by exact H. rewrite Hok.
-  rewrite (mult_all_none y _ (no_alias_aliased s NA)). lia.
+  intros b1 b2 s L0 y H NA Hok. unfold after_call. rewrite counts_after_call_gen by exact H. rewrite Hok.
+  unfold leaked. destruct consume_leaks; [rewrite (mult_all_none y _ (no_alias_aliased s NA))|cbn [mult]]; lia.
 Qed.
 Print Assumptions C05_counts_after_call.
 
 (* once caller and implementation drop what they hold every count is back at its start *)
 Theorem C05_balanced_after_drop : forall b1 b2 s L0 y,
   holders_only_cpp b1 s = true -> no_alias s = true -> after_drop b1 b2 s L0 y = L0 y.
-Proof. exact balanced_after_drop. Qed.
+Proof. intros. now apply balanced_after_drop_gen. Qed.
 Print Assumptions C05_balanced_after_drop.
 
 (* on a failed call no output object is adopted and nothing is retained or released *)
@@ -45,27 +45,41 @@ Theorem C05_failed_call : forall b1 b2 s L0,
   fst (after_call b1 b2 s L0) = pre_of s /\
   forall y, snd (after_call b1 b2 s L0) y = L0 y + mult y (sc_ins s) + mult y (pre_of s).
 Proof.
-  intros b1 b2 s L0 H Hf. split; [now apply failed_call_adopts_nothing|].
-  intro y. rewrite counts_after_call by exact H. rewrite Hf. lia.
+  intros b1 b2 s L0 H Hf. split; [now apply failed_call_adopts_nothing_gen|].
+  intro y. unfold after_call. rewrite counts_after_call_gen by exact H. rewrite Hf. lia.
 Qed.
 Print Assumptions C05_failed_call.
 
-(* the unrestricted claim (without no_alias) is false of the faithful model: a C++ proxy that
-   already owns the returned object neither adopts nor releases the incoming reference
-   (ProxyBase::consume); the exact leak is one reference per such position *)
-Theorem C05_full_statement_refuted :
+(* the aliased case.  With the pinned ProxyBase::consume (skips a duplicate without giving the
+   reference back: consume_leaks = true) the unrestricted claim is false of the faithful model:
+   exactly one leaked reference per output position whose holder already owned the returned
+   object ... *)
+Theorem C05_full_statement_refuted_upstream : consume_leaks = true ->
   exists b1 b2 s y, holders_only_cpp b1 s = true /\ after_drop b1 b2 s (fun _ => 0) y <> 0.
 Proof.
-  exists BCpp, BCpp, alias_witness, 1%N. split; [reflexivity|].
-  rewrite alias_witness_leaks. discriminate.
+  intro H. exists BCpp, BCpp, alias_witness, 1%N. split; [reflexivity|].
+  unfold after_drop. rewrite H, alias_witness_leaks. discriminate.
 Qed.
-Print Assumptions C05_full_statement_refuted.
+Print Assumptions C05_full_statement_refuted_upstream.
 
 Theorem C05_leak_is_exactly_the_aliased_positions : forall b1 b2 s L0 y,
   holders_only_cpp b1 s = true ->
-  after_drop b1 b2 s L0 y = L0 y + (if sc_ok s then mult y (aliased (sc_outs s)) else 0).
-Proof. exact ledger_after_drop. Qed.
+  after_drop b1 b2 s L0 y = L0 y + (if sc_ok s then mult y (leaked consume_leaks (sc_outs s)) else 0).
+Proof. intros. now apply ledger_after_drop_gen. Qed.
 Print Assumptions C05_leak_is_exactly_the_aliased_positions.
+
+(* ... and with a consume that releases the duplicate the claim holds without the no_alias
+   restriction, for every scenario *)
+Theorem C05_balanced_for_every_scenario : consume_leaks = false ->
+  forall b1 b2 s L0 y, holders_only_cpp b1 s = true -> after_drop b1 b2 s L0 y = L0 y.
+Proof. intros Hc b1 b2 s L0 y H. unfold after_drop. rewrite Hc. now apply balanced_unconditionally. Qed.
+Print Assumptions C05_balanced_for_every_scenario.
+
+(* the tree being checked (regenerated facts: consume gives the duplicate back) *)
+Theorem C05_balanced_current : forall b1 b2 s L0 y,
+  holders_only_cpp b1 s = true -> after_drop b1 b2 s L0 y = L0 y.
+Proof. exact (C05_balanced_for_every_scenario eq_refl). Qed.
+Print Assumptions C05_balanced_current.
 
 (* non-vacuity: a scenario with aliased inputs, an output equal to an input, a null, and a
    pre-filled C++ holder that owns a different object satisfies the hypotheses *)
